@@ -84,9 +84,12 @@ def handleResv (ws : List String) : String :=
       | some cs =>
         let name := String.ofList cs
         let prop := pos = "dot" ∨ pos = "key" ∨ pos = "getter" ∨ pos = "dotassign"
-        let model := prop || decide (Reserved.tokenKind name = .identifier)
+        -- region `identifier_zwj_zwnj`: isIdentifierPart (lexer.go:98) has no ZWNJ/ZWJ (ES5 7.6 IdentifierPart includes them): the
+        -- scanner stops in front of the character and reports ILLEGAL, in every position
+        let zw := cs.any fun ch => ch.toNat = 0x200C ∨ ch.toNat = 0x200D
+        let model := !zw && (prop || decide (Reserved.tokenKind name = .identifier))
         let spec := prop || !Reserved.isReserved name
-        verdict model ++ " " ++ verdict spec ++ " -"
+        verdict model ++ " " ++ verdict spec ++ " " ++ (if zw then "identifier_zwj_zwnj" else "-")
       | none => "bad-escape bad-escape -"
     | none => "bad-request bad-request -"
   | _ => "bad-request bad-request -"
